@@ -453,6 +453,13 @@ class Master(loader.Loader):
         """Run scheduler first time and update scheduled data."""
         placement = self.cell.schedule()
 
+        # Apps placed anew by this cycle (identity/expiry may differ from what
+        # is stored even if the server is the same).
+        changed = {
+            app for app, before, exp_before, after, exp_after in placement
+            if after and (before != after or exp_before != exp_after)
+        }
+
         for servername, server in self.cell.members().items():
             placement_node = z.path.placement(servername)
             self.backend.ensure_exists(placement_node)
@@ -463,7 +470,7 @@ class Master(loader.Loader):
             for app in current - correct:
                 _LOGGER.info('Unscheduling: %s - %s', servername, app)
                 self.backend.delete(os.path.join(placement_node, app))
-            for app in correct - current:
+            for app in (correct - current) | (correct & changed):
                 _LOGGER.info('Scheduling: %s - %s,%s',
                              servername, app, self.cell.apps[app].identity)
 
